@@ -5,12 +5,12 @@ CONSTS = {"CertKeys": '{"k1","k2","k3"}'}
 GEN_CFGS = {}
 
 
-def G(tag, classes, depth, num, props, nidl=False, base=True, sw=False, regw=False, unix=False, nide=False):
+def G(tag, classes, depth, num, props, nidl=False, base=True, sw=False, regw=False, unix=False, nide=False, lstate=False):
     name = "HandshakeGen_%s.cfg" % tag
     GEN_CFGS[name] = ("SPECIFICATION Spec\nCONSTANTS\n  CertKeys = {\"k1\",\"k2\",\"k3\"}\n  Depth = %d\n  Classes = {%s}\n  CfgNidl = %s\n  CfgBase = %s\nCHECK_DEADLOCK FALSE\n"
                       % (depth, ",".join('"%s"' % c for c in classes), "TRUE" if nidl else "FALSE", "TRUE" if base else "FALSE"))
     return dict(module="HandshakeGen.tla", cfg=name, depth=depth, num=num, props=props, tag=tag,
-                beh_cfg=dict(nidl=nidl, nide=nide, base=base, sw=sw, regw=regw, unix=unix, lifeSec=0, certKeys=["k1", "k2", "k3"]))
+                beh_cfg=dict(nidl=nidl, nide=nide, lstate=lstate, base=base, sw=sw, regw=regw, unix=unix, lifeSec=0, certKeys=["k1", "k2", "k3"]))
 
 
 def materialise(scr):
@@ -40,6 +40,8 @@ GENS = [
       dict(quick=12, thorough=300), ["C02", "C07"], nidl=False, sw=True),
     G("c16a", ["Enroll", "Dial", "Dial", "ConnectHonest", "Remove"], 9, dict(quick=40, thorough=600), ["C16"]),
     G("c16b", ["Enroll", "Dial", "ConnectHonest", "ConnectNear"], 9, dict(quick=20, thorough=400), ["C16"], nidl=True, sw=True),
+    # the listener's own options carry a state value: no connection may report it as the client's
+    G("c16c", ["Enroll", "Dial", "Dial", "ConnectHonest", "ConnectNear"], 9, dict(quick=20, thorough=400), ["C16"], lstate=True),
     G("c14a", ["Enroll", "Malformed", "Malformed", "Malformed", "Dial"], 12, dict(quick=40, thorough=700), ["C14"]),
     G("c14c", ["Enroll", "Remove", "Reinit", "ConnectNear", "ConnectRand", "ConnectMixed", "Dial"], 12, dict(quick=25, thorough=500), ["C14"], nidl=True),
     G("c14b", ["Enroll", "Malformed", "Malformed", "Dial", "ConnectOther"], 12, dict(quick=20, thorough=400), ["C14"], regw=True, sw=True),
